@@ -119,3 +119,21 @@ Proof.
   - unfold unpublished_edges in H. apply in_map_iff in H. destruct H as [[i u] [<- _]]. discriminate.
   - unfold exemption_edges in H. apply in_map_iff in H. destruct H as [[i x] [<- _]]. discriminate.
 Qed.
+
+(* an edge's criteria set is the closure of a written list, or everything *)
+Lemma edge_crit_form : forall t s e, In e (all_edges t s) ->
+  (exists l, fe_crit e = from_list t l) \/ fe_crit e = all_criteria t.
+Proof.
+  intros t s e. unfold all_edges. rewrite !in_app_iff. intros [H|[H|[H|H]]].
+  - unfold audit_edges in H. apply in_flat_map in H. destruct H as [[[src o] a] [_ H]].
+    destruct (au_kind a); cbn in H; try contradiction; destruct H as [<-|[]]; left; eexists; reflexivity.
+  - unfold publisher_edges in H. apply in_flat_map in H. destruct H as [[pi p] [_ H]].
+    rewrite in_app_iff in H. destruct H as [H|H]; apply in_flat_map in H.
+    + destruct H as [[[imp ai] w] [_ H]]. destruct (wildcard_guard _ _ _ _ _); [|contradiction].
+      destruct H as [<-|[]]. left. eexists. reflexivity.
+    + destruct H as [tr [_ H]]. destruct (trusted_guard _ _ _ _ _); [|contradiction].
+      destruct H as [<-|[]]. left. eexists. reflexivity.
+  - unfold unpublished_edges in H. apply in_map_iff in H. destruct H as [[i u] [<- _]]. right. reflexivity.
+  - unfold exemption_edges in H. apply in_map_iff in H. destruct H as [[i x] [<- _]]. left. eexists. reflexivity.
+Qed.
+
